@@ -29,12 +29,7 @@ Definition idem_state (idem : bool) : Z := if idem then 2%Z else 1%Z.
 Definition host_key (h : N) : bytes := [104; 48 + h].
 
 (** ** texts *)
-Fixpoint join_commas (l : list bytes) : bytes :=
-  match l with
-  | [] => []
-  | [a] => a
-  | a :: rest => a ++ 44 :: join_commas rest
-  end.
+(** [join_commas] (Model/Monitor.v) joins the host keys of a plan *)
 
 (** decimal digits of a number, most significant first *)
 Fixpoint digits_fuel (fuel : nat) (n : N) (acc : bytes) : bytes :=
@@ -237,9 +232,9 @@ Definition trace_of (es : list event) : list val := trace_from init_world es.
 End Trace.
 
 (** the error frames the trace can render faithfully: the record carries the five fields the retry policy reads
-    (the others are 0 in what [err_of_fields] rebuilds) and the write type must not contain a comma *)
+    (the others are 0 in what [err_of_fields] rebuilds); the write type is arbitrary *)
 Definition traceable_err (m : err_info) : Prop :=
-  e_alive m = 0%Z /\ e_required m = 0%Z /\ e_numFailures m = 0%Z /\ e_consistency m = 0%Z /\ ~ In 44 (e_writeType m).
+  e_alive m = 0%Z /\ e_required m = 0%Z /\ e_numFailures m = 0%Z /\ e_consistency m = 0%Z.
 
 Definition traceable_event (e : event) : Prop :=
   match e with
